@@ -116,3 +116,7 @@ Fixpoint exact_policy (value : Z) (hops : list phop) : Prop :=
             first_amount (h :: t) = Z.max (ph_hmin h) (first_amount t + req)
       end /\ exact_policy value t
   end.
+
+(** two hops of the same channel policy (the recomputation only rewrites [hop_use_fee_msat] and
+    [fee_msat]) *)
+Definition same_policy (h h' : phop) : Prop := ph_fees h = ph_fees h' /\ ph_hmin h = ph_hmin h'.
